@@ -320,7 +320,10 @@ def scToIdle (s : St) (sd : SC) (new : ConnState) : St × List Ev :=
 def scFirstPass (s : St) (sd : SC) (new : ConnState) (err : Nat) : St × List Ev :=
   match new with
   | .connecting =>
-    if sd.eff ≠ .tf then pushState (setSC s { sd with eff := .connecting }) .connecting .queue
+    -- "If it's TRANSIENT_FAILURE, stay in TRANSIENT_FAILURE until it's READY. See A62." — of this SubConn
+    -- (effectiveState) and, since 97a72f7, of the balancer (b.state): a SubConn added by a resolver update
+    -- received in TRANSIENT_FAILURE must not take the channel to CONNECTING
+    if sd.eff ≠ .tf ∧ s.state ≠ .tf then pushState (setSC s { sd with eff := .connecting }) .connecting .queue
     else (s, [])
   | .tf =>
     let s1 := setSC s { sd with lastErr := err, eff := .tf }
